@@ -104,6 +104,23 @@ def body_eval(env):
         env.ge('eddy diffusivity >= 0', r.coolant_int_params['eddy'], 0.0, core=not isinstance(r.coolant_int_params['eddy'], Sym))
         env.ge('swirl velocity >= 0', r.coolant_int_params['swirl'][1], 0.0, core=not isinstance(r.coolant_int_params['swirl'][1], Sym))
         env.eq('swirl velocity equal for edge and corner cells', r.coolant_int_params['swirl'][1], r.coolant_int_params['swirl'][2])
+        # finiteness: every logarithm / non-integer power evaluated on this path got an argument inside its domain
+        # (replay: the correlated parameters are finite numbers)
+        nm = 'friction factor, flow split and mixing parameters are finite: every logarithm got a positive argument'
+        nm2 = 'friction factor, flow split and mixing parameters are finite: every non-integer power got a non-negative base'
+        if env.mode == 'sym':
+            import z3 as _z3
+            dl = [c for (f_, c) in core.CTX.domain if f_ != 'pow']
+            dp = [c for (f_, c) in core.CTX.domain if f_ == 'pow']
+            env.holds(nm, core.SymBool(_z3.And(*dl)) if dl else True, key='nonfinite_correlation')
+            # bases of powers are often differences of logarithms; the uninterpreted logarithm only knows sign and monotonicity,
+            # so this half is best-effort: a reproduced counterexample is a violation, an unreproduced one is left open
+            env.holds(nm2, core.SymBool(_z3.And(*dp)) if dp else True, key='nonfinite_correlation', core=False)
+        else:
+            vals = [np.ravel(np.asarray(r.coolant_int_params[k], dtype=float)) for k in ('ff', 'fs', 'eddy', 'swirl')]
+            fin = bool(all(np.all(np.isfinite(v)) for v in vals))
+            env.holds(nm, fin, key='nonfinite_correlation')
+            env.holds(nm2, fin, key='nonfinite_correlation', core=False)
 
 
 def body_iterate(env):
@@ -142,6 +159,26 @@ def body_iterate(env):
             env.eq('returned split conserves mass', s[0] * r[0] + s[1] * r[1] + s[2] * r[2], 1.0, tol=1e-9)
 
 
+def body_gradient(env):
+    """Cheng-Todreas family, laminar and turbulent regimes: the split factors are constants of the geometry (no symbolic
+    input), so this instance is a concrete evaluation (enumeration of bundles), listed as such: the pressure gradient
+    Cf_i x_i^(2-m) / De_i^(1+m) is the same for the three subchannel types (m = 1 laminar, 0.18 turbulent)."""
+    fs, n = env.params['fs'], env.params['n_ring']
+    r = _region(n, (fs, fs, 'MIT'), False)
+    cc = r.corr_constants['fs']
+    De = np.asarray(r.params['de'], dtype=float)
+    for reg, m in (('laminar', 1.0), ('turbulent', 0.18)):
+        x = np.asarray(cc['fs'][reg], dtype=float)
+        Cf = np.asarray(cc['Cf_sc'][reg], dtype=float)
+        g = Cf * x ** (2 - m) / De ** (1 + m)
+        env.holds('%s %s: pressure gradient equal over interior, edge and corner subchannels (1e-9 relative)' % (fs, reg),
+                  bool(np.all(np.abs(g / g[0] - 1) < 1e-9)), key='pressure_gradients_differ')
+        N = [r.subchannel.n_sc['coolant'][k] for k in ('interior', 'edge', 'corner')]
+        A = np.asarray(r.params['area'], dtype=float)
+        env.holds('%s %s: split conserves mass (1e-12 relative)' % (fs, reg),
+                  abs(float(np.dot(np.array(N) * A, x)) / float(r.bundle_params['area']) - 1) < 1e-12, key='mass_not_conserved')
+
+
 def _for_body(func):
     """Lift the body of the first for-loop of `func` (symx.loops works on while loops; same idea)."""
     import ast
@@ -163,6 +200,9 @@ def instances(tier):
         depth = (6 if heavy else 10) if tier == 'quick' else (10 if heavy else 16)
         inst.append(dict(label='eval[fs=%s,ff=%s,mix=%s]' % c, body=body_eval, params={'combo': c, 'n_ring': 3},
                          max_paths=400, max_depth=depth, timeout_ms=15000))
+    for fs in ('CTD', 'UCTD'):
+        for n in ((2, 3, 5) if tier == 'quick' else (2, 3, 4, 5, 7, 9, 12)):
+            inst.append(dict(label='ct-gradient[fs=%s,rings=%d]' % (fs, n), body=body_gradient, params={'fs': fs, 'n_ring': n}, check_vacuity=False))
     if tier == 'thorough':
         for c in combos:
             if c[0] in ('CTD', 'UCTD') and c[1] in ('CTD', 'UCTD'):
